@@ -24,8 +24,17 @@ UNIVERSES = {
     "int": dict(hashable=True, bare=False),     # k*16+p, key=lambda i: 'k%d' % (i // 16): item (0, 0) is 0
     "ftuple": dict(hashable=True, bare=True),   # tuple subclass, falsy when p == 0, key=lambda t: t[0]
     "fdict": dict(hashable=False, bare=False),  # dict subclass, falsy when p == 0, key=lambda d: d['k']
+    # typed only, NO key function, item type wider than the key type: an item can be a valid T
+    # while its (default-extracted) key is not a K - only the key-type check can reject it
+    "uself": dict(hashable=True, bare=True, typed_only=True),    # KeyedSet[Union[int, str], str]; the int items are ill-KEYED
+    "uspec": dict(hashable=False, bare=True, hash_ok=True, typed_only=True),  # Item.k: Union[int, str] in KeyedSet[Item, str]; Item(k=9) is ill-keyed
 }
 UNAMES = list(UNIVERSES)
+BASE = {"uself": "self", "uspec": "spec"}   # same objects and encoding as the base universe
+
+
+def base(u):
+    return BASE.get(u, u)
 CMP = {"Le": "<=", "Lt": "<", "Ge": ">=", "Gt": ">"}
 SWAP = {"Le": "Ge", "Lt": "Gt", "Ge": "Le", "Gt": "Lt"}
 BIN = ("And", "Or", "Sub", "Xor")
@@ -67,15 +76,20 @@ class Impl:
     def __init__(self, universe, typed, enf):
         from spec_classes import spec_class
         from spec_classes.types import KeyedSet
+        self.name = universe
+        universe = base(universe)
         self.u, self.typed, self.enf, self.KeyedSet = universe, typed, enf, KeyedSet
         self.keyf = {"self": None, "spec": None, "tuple": (lambda t: t[0]), "intkey": (lambda t: t[0]),
                      "dict": (lambda d: d["k"]), "list": (lambda l: l[0]),
                      "int": (lambda i: "k%d" % (i // 16)), "ftuple": (lambda t: t[0]),
                      "fdict": (lambda d: d["k"])}[universe]
         if universe == "spec":
+            from typing import Union
+            ktype = Union[int, str] if self.name == "uspec" else str
+
             @spec_class(key="k")
             class Item:
-                k: str
+                k: ktype
                 p: int
 
             @spec_class(key="k")
@@ -95,6 +109,8 @@ class Impl:
                 return (9, p)
             return f"{chr(97 + k)}9" if p == 9 else (chr(97 + k), p)
         if u == "spec":
+            if k == 9:
+                return self.Item(k=9, p=p)   # uspec only: a valid Item whose key is not a str
             return self.Other(k=f"k{k}", p=9) if p == 9 else self.Item(k=f"k{k}", p=p)
         if u == "intkey":
             if k == 9:
@@ -154,7 +170,7 @@ class Impl:
                 a, b = o.split(".")
                 return (int(a), int(b))
             if u == "spec":
-                return (int(o.k[1:]), 9 if isinstance(o, self.Other) else o.p)
+                return (self.dec_key(o.k)[0], 9 if isinstance(o, self.Other) else o.p)
             if u in ("dict", "fdict"):
                 return (self.dec_key(o["k"])[0], 9 if isinstance(o, FakeD) else o["p"])
             if u == "int":
@@ -184,6 +200,9 @@ class Impl:
         KS = self.KeyedSet
         if not self.typed:
             return KS
+        if self.name == "uself":
+            from typing import Union
+            return KS[Union[int, str], str]
         return {"self": lambda: KS[str, str], "tuple": lambda: KS[tuple, str], "spec": lambda: KS[self.Item, str],
                 "intkey": lambda: KS[tuple, int], "dict": lambda: KS[dict, str], "list": lambda: KS[list, str],
                 "int": lambda: KS[int, str], "ftuple": lambda: KS[tuple, str], "fdict": lambda: KS[dict, str]}[self.u]()
@@ -313,7 +332,7 @@ def c_item(kp):
 
 
 def c_key(u, kp):
-    return c_item(kp) if u == "self" else cz(kp[0])
+    return c_item(kp) if base(u) == "self" else cz(kp[0])
 
 
 def c_arg(u, a):
@@ -353,7 +372,7 @@ def bad_items(u, keys, pays, typed):
     bad = []
     if typed:
         bad.append((keys[0], 9))
-        if u not in ("self", "spec", "int"):
+        if u not in ("self", "spec", "int", "uself"):
             bad.append((9, pays[0]))
     return bad
 
@@ -388,10 +407,10 @@ def op_instances(u, keys, pays, typed):
     bad = bad_items(u, keys, pays, typed)
     ops = [("Add", x) for x in items + bad]
     args = [("I", x) for x in items + bad[:1]]
-    args += [("K", (k, pays[0])) for k in keys] if u != "self" else []
+    args += [("K", (k, pays[0])) for k in keys] if base(u) != "self" else []
     for a in args:
         ops += [("Discard", a), ("Remove", a), ("Contains", a), ("GetItem", a)]
-    ops += [("Get", (k, pays[0])) for k in keys] if u != "self" else [("Get", x) for x in items]
+    ops += [("Get", (k, pays[0])) for k in keys] if base(u) != "self" else [("Get", x) for x in items]
     ops += [("Pop",), ("Clear",), ("Len",), ("Iter",), ("Keys",), ("Items",)]
     if not UNIVERSES[u]["hashable"]:
         ops += [(n, ("Set", []), sw) for n in ("Eq", "Ne") for sw in (False, True)]
@@ -428,7 +447,7 @@ def random_op(rng, u, typed):
         if n == "Get":
             return (n, rng.choice(items))
         if n in ("Discard", "Remove", "Contains", "GetItem"):
-            if u != "self" and rng.random() < 0.4:
+            if base(u) != "self" and rng.random() < 0.4:
                 return (n, ("K", rng.choice(items)))
             return (n, ("I", rng.choice(items + bad[:1])))
         return (n,)
@@ -465,14 +484,15 @@ def random_case(rng, u, typed, maxops):
 def generate(rng, tier):
     cases = []
     quick = tier == "quick"
-    configs = [(u, t, e) for u in UNAMES for t in (False, True) for e in (False, True)]
+    configs = [(u, t, e) for u in UNAMES for t in (False, True) for e in (False, True)
+               if t or not UNIVERSES[u].get("typed_only")]
     # small scope: every state of <= 2 items over 3 keys x 2 payloads (thorough: <= 3
     # items) x a stride through every operation instance, depth 1
     for u, typed, enf in configs:
         keys, pays = [0, 1, 2], [0, 1]
         insts = op_instances(u, keys, pays, typed)
         for init in states(keys, pays, 2 if quick else 3):
-            st = 24 if quick else (4 if len(init) < 3 else 32)
+            st = 32 if quick else (4 if len(init) < 3 else 32)
             for op in insts[rng.randrange(st)::st]:
                 cases.append((u, typed, enf, init, [op], "exh1"))
     # every entry point that can reach the equivalence check, with an incoming item that
@@ -568,7 +588,7 @@ def evaluate(cases, tag="c"):
             if isinstance(e, (KeyboardInterrupt, SystemExit)):
                 raise
             seen, rops = [([-98], [])], ops[:1]  # initial container failed / operand mutated
-        by_u["self" if u == "self" else "fst"].append((i, c_case(u, typed, enf, init, rops, seen), seen, rops))
+        by_u["self" if base(u) == "self" else "fst"].append((i, c_case(u, typed, enf, init, rops, seen), seen, rops))
     bad, logs = [], []
     for g, fn, ty in (("self", "check_ks_self", "@case kitem"), ("fst", "check_ks_fst", "@case Z")):
         if not by_u[g]:
@@ -784,7 +804,7 @@ def main(tier, replay=None):
         "evaluations": len(cases), "distinct_nontrivial": len(distinct),
         "rule": "case = (universe, typed, enforce_item_equivalence, initial items, operation list); depth-1: every state "
                 "of <=2 (thorough <=3) items of 3 keys x 2 payloads x a stride through every operation instance "
-                "(quick: every 24th; thorough: every 4th for <=2 items, every 32nd for 3); 'equiv': every entry point reaching the equivalence check x every operand kind x stored/incoming items under one key (payload 0 is falsy in three universes), exhaustive over 2 keys x 2 payloads, sampled depth-2, random "
+                "(quick: every 32nd; thorough: every 4th for <=2 items, every 32nd for 3); 'equiv': every entry point reaching the equivalence check x every operand kind x stored/incoming items under one key (payload 0 is falsy in three universes), exhaustive over 2 keys x 2 payloads, sampled depth-2, random "
                 "sequences of <=8/16 operations over 5 keys x 3 payloads; distinct = distinct tuples; every case has >=1 operation",
         "samples": [dict(universe=c[0], typed=c[1], enforce=c[2], init=c[3], ops=c[4]) for c in pick],
         "exhaustive": False,
@@ -793,7 +813,7 @@ def main(tier, replay=None):
         trusted_base=["Coq 8.16.1 kernel and vm_compute", "no axioms (Print Assumptions: closed under the global context)",
                       "hand-written model coq/KS/Model.v (KeyedSet + collections.abc Set/MutableSet mixins + dict semantics) "
                       "tied to /repo by this run's correspondence",
-                      "harness/c14.py encoders and the nine item universes"],
+                      "harness/c14.py encoders and the eleven item universes"],
         assumptions=["items are values: == on items is equality; key functions are total on items and, on bare keys, "
                      "either return the key or raise TypeError (DESIGN section 7)",
                      "an item that can itself be used as a dictionary key is its own key (the class docstring warns "
